@@ -25,5 +25,8 @@ META = {
    technique='Coq proof (induction over op lists + integer arithmetic lemmas) with differential correspondence of the extracted model'),
 }
 from props import PROPS
+from manifest_texts import TEXTS, PART
+for _k, (_t, _tech) in TEXTS.items():
+    META.setdefault(_k, dict(text=_t, note=PART, technique=_tech))
 NOT_APPLICABLE = [{'property_id': p, 'reason': 'not built yet in this round (planned, see DESIGN.md section 9); no technique limitation claimed'}
                   for p in ALL if p not in PROPS]
